@@ -8,6 +8,7 @@
 //   end
 //   case <id> mode=write mesh=poly|tet|hex topo=auto|poly|tet|hex fault=none|write@<k>
 //   k <kernel script line>             (harness/kernel_exec.hh: AddVs 4 / @AddE 0 1 1 / @AddF 0 0 2 4 / @AddC 0 ... / @DelV 0 / GC)
+//   rawE a b / rawF h.. / rawC h..     (direct add_edge(a,b,true) / add_face(..,false) / add_cell(..,false): big meshes, empty cells)
 //   pos <v> <hex64 x> <hex64 y> <hex64 z>
 //   prop <kind V|E|HE|F|HF|C|M> <ovmb type> <name hex|-> <default hex|-> [<value hex|->]*   (values: first n elements)
 //   end
@@ -186,6 +187,7 @@ struct Case {
 };
 
 static const char *nm(const char *s) { return s ? s : "?"; }
+static unsigned g_alarm = 2;      // --alarm <seconds>: per-case time limit
 static bool g_nomesh = false;   // --nomesh: result + oracles only (files declaring millions of entities)
 
 template <class M> static void do_read(const Case &c, std::ostream &o, const std::string &scratch) {
@@ -254,6 +256,7 @@ template <class M> static void do_write(const Case &c, std::ostream &o) {
         auto toks = split_ws(l);
         if (toks.empty()) continue;
         // faces / cells the kernel-script layer treats as out of contract (empty lists): added through the API directly
+        if (toks[0] == "rawE") { w.mesh.add_edge(VertexHandle(std::stoi(toks.at(1))), VertexHandle(std::stoi(toks.at(2))), true); continue; }
         if (toks[0] == "rawF") { std::vector<HalfEdgeHandle> hs; for (size_t i = 1; i < toks.size(); ++i) hs.push_back(HalfEdgeHandle(std::stoi(toks[i]))); w.mesh.add_face(hs, false); continue; }
         if (toks[0] == "rawC") { std::vector<HalfFaceHandle> hs; for (size_t i = 1; i < toks.size(); ++i) hs.push_back(HalfFaceHandle(std::stoi(toks[i]))); w.mesh.add_cell(hs, false); continue; }
         try { Result r = exec_line(w, toks); if (r.rejected) o << "# rejected: " << l << "\n"; } catch (Unresolvable &) { o << "# unresolvable: " << l << "\n"; }
@@ -328,7 +331,7 @@ static size_t run_worker(const std::vector<Case> &cases, size_t from, const std:
         auto put = [&](const std::string &s) { size_t off = 0; while (off < s.size()) { ssize_t k = write(fd[1], s.data() + off, s.size() - off); if (k <= 0) _exit(4); off += (size_t)k; } };
         for (size_t i = from; i < cases.size(); ++i) {
             put("<<begin " + std::to_string(i) + ">>\n");
-            alarm(2);
+            alarm(g_alarm);
             std::ostringstream o;
             run_case(cases[i], o, scratch);
             alarm(0);
@@ -377,6 +380,7 @@ int main(int argc, char **argv) {
         if (a == "--nofork") nofork = true;
         else if (a == "--verbose") verbose = true;
         else if (a == "--nomesh") g_nomesh = true;
+        else if (a == "--alarm" && i + 1 < argc) g_alarm = (unsigned)std::stoul(argv[++i]);
         else if (a == "--scratch" && i + 1 < argc) scratch = argv[++i];
         else file = argv[i];
     }
@@ -402,7 +406,7 @@ int main(int argc, char **argv) {
         } else if (!open) continue;
         else if (t[0] == "hex") { if (t.size() > 1) cur.bytes += from_hex(t[1]); }
         else if (t[0] == "k") { cur.klines.push_back(line.substr(line.find('k') + 1)); }
-        else if (t[0] == "rawF" || t[0] == "rawC") { cur.klines.push_back(line); }
+        else if (t[0] == "rawE" || t[0] == "rawF" || t[0] == "rawC") { cur.klines.push_back(line); }
         else if (t[0] == "pos") { if (t.size() >= 5) cur.pos.push_back(t); }
         else if (t[0] == "prop") { if (t.size() >= 5) cur.props.push_back(t); }
         else if (t[0] == "end") { all.push_back(cur); open = false; }
